@@ -2025,10 +2025,13 @@ class _Duration(Duration):
     def from_timedelta(
         cls, delta: timedelta, *, _1_microsecond: timedelta = timedelta(microseconds=1)
     ) -> "_Duration":
-        total_ms = delta // _1_microsecond
-        seconds = int(total_ms / 1e6)
-        nanos = int((total_ms % 1e6) * 1e3)
-        return cls(seconds, nanos)
+        # Integer arithmetic on the magnitude: exact beyond 2**53 microseconds, and
+        # seconds and nanos never have opposite signs.
+        total_us = delta // _1_microsecond
+        seconds, us = divmod(abs(total_us), 10**6)
+        if total_us < 0:
+            seconds, us = -seconds, -us
+        return cls(seconds, us * 1000)
 
     def to_timedelta(self) -> timedelta:
         return timedelta(seconds=self.seconds, microseconds=self.nanos / 1e3)
